@@ -405,6 +405,12 @@ def shot_noise(img, method='poisson', seed=None):
 
     rng = np.random.default_rng(seed)
 
+    if isinstance(img, np.ndarray) and img.dtype.kind in 'biuf' and img.dtype != np.float64:
+        # the counts as double precision numbers whatever type the frame
+        # arrives in (the generators refuse extended precision, and the square
+        # root of an 8-bit or half precision frame is a half precision number)
+        img = img.astype(float)
+
     if method == 'poisson':
         counts = img
         try:
